@@ -103,7 +103,15 @@ def main():
         # no -t: a file that differs (i.e. was patched by the previous seed) is copied back and gets
         # a *new* mtime, so that cargo rebuilds it; with -a the restored file would carry its old
         # mtime, cargo would consider the crate fresh and the previous seed's code would stay compiled in
-        sh("rsync -rlpgoD --checksum --delete --exclude target --exclude .git /repo/ /tmp/seedrun/repo/")
+        # the source is /repo's HEAD commit (exported once per HEAD), not its working tree, so that work
+        # going on in /repo cannot leak into a seeded run
+        rc, head = sh("git -C /repo rev-parse HEAD")
+        head = head.strip()
+        stamp = "/tmp/seedrun/pristine.head"
+        if not (os.path.exists(stamp) and open(stamp).read().strip() == head):
+            sh("rm -rf /tmp/seedrun/pristine && mkdir -p /tmp/seedrun/pristine && git -C /repo archive HEAD | tar -x -C /tmp/seedrun/pristine")
+            open(stamp, "w").write(head)
+        sh("rsync -rlpgoD --checksum --delete --exclude target --exclude .git /tmp/seedrun/pristine/ /tmp/seedrun/repo/")
         rc, o = sh(f"patch -p1 --no-backup-if-mismatch < {rebased or patch}", cwd="/tmp/seedrun/repo")
         if rebased:
             out["checks"]["rebased_patch"] = "the agent's patch was written against an earlier /repo HEAD; the same change was re-applied by hand to the current HEAD (patch-rebased.diff) for running the checks"
